@@ -85,6 +85,12 @@ def at(fn, line=None):
 
 class Ctx:
     def __init__(self, facts, tree_hash, tier, facts_rel=None):
+        from inline import inline_new_helpers
+
+        # normalisation: new private helpers are spliced into their callers (identity on the pinned tree)
+        facts, self.inlined = inline_new_helpers(facts)
+        if facts_rel:
+            facts_rel, _ = inline_new_helpers(facts_rel)
         self.facts = facts
         self.tree_hash = tree_hash
         self.tier = tier
@@ -183,6 +189,7 @@ def finish(prop, ctx, insts, reports, wall, explanation, not_decided, extra=None
         "rules": reports,
         "functions_analysed": ctx.stats.get("functions"),
         "positive_controls": ctx.stats.get("positive_controls"),
+        "inlined_new_helpers": getattr(ctx, "inlined", []),
         "tree_hash": ctx.tree_hash,
         "known_findings_matched": matched_known,
         "checker_cmd": "./check %s --tier %s" % (prop, ctx.tier),
